@@ -315,7 +315,8 @@ def cases(tier, seed):
         cs.append(case("bestbatch", ("nonaligned", "short"), 1, 2, ncalls=1))
         cs.append(case("bestbatch", ("wide",), 1, 3))
         for k in ("cors", "xgb", "rf", "gp-mean"):
-            cs.append(case(k, ("short",), 2, 3))
+            if k != "gp-mean":  # a 3-point grid forces repeated history points, on which scikit-learn's GP is singular (outside the stated assumption)
+                cs.append(case(k, ("short",), 2, 3))
             cs.append(case(k, ("wide", "nonaligned"), 1, 2))
         for k in ("pso", "pso-global"):
             cs.append(case(k, ("wide",), 1, 2))
